@@ -134,9 +134,17 @@ def run(ctx):
         ctx.traces += 1
         ctx.evaluations += 1
         ctx.distinct.add(("openRefused", c["dir"], c["restart"], c["returned"]))
+    # the channel monitor inside a real manager: an event of the monitored channel is being published (notifier inside the subscriber table's read
+    # lock, not yet at the monitor's callback) while the monitor's restart attempt ends (gives up -> Shutdown/unsubscribe/close, or succeeds)
+    out3 = ctx.path("lock-monoverlap.ndjson")
+    r = ctx.run_go(b, "TestMonitorOverlap", env={"VERIF_OUT": out3}, timeout=600)
+    if "DATA RACE" in r.stdout:
+        ctx.violation({"rule": "C20.noRace", "where": "monitorOverlap"}, "data race reported by the race detector in the monitor overlap scenarios", detail=r.stdout[-6000:])
+    elif r.returncode != 0:
+        raise vlib.Inconclusive("lockx TestMonitorOverlap failed:\n" + r.stdout[-3000:])
     both = ctx.path("lock-obs.ndjson")
     with open(both, "w") as f:
-        for p in (out1, out2):
+        for p in (out1, out2, out3):
             if os.path.exists(p):
                 f.write(open(p).read())
     n, verdicts = stages.judge(ctx, both, module="LockJudge")
@@ -144,6 +152,8 @@ def run(ctx):
     for v in verdicts:
         c = idx[v["case"]]
         key = {"rule": v["rule"], "scenario": v["op"]}
+        if c.get("err"):
+            raise vlib.Inconclusive("lockx scenario %s failed in the harness: %s" % (v["case"], c["err"]))
         ctx.violation(key, "%s violated (%s): %s" % (v["rule"], v["case"], (c.get("frames") or c.get("parked") or c.get("notReturned") or c.get("panics"))), detail=c)
     for c in idx.values():
         ctx.traces += 1
